@@ -130,6 +130,8 @@ def compare(rec, clause, name_a, name_b, spec_a, spec_b, table, va, vb, info, re
     for g in np.nonzero(rows_bad)[0][:1]:
         grp = table.describe_group(int(g))
         key = f'{ID}|{clause}|{name_a}~{name_b}|{info["shape"].split(",")[0]}'
+        if info.get('availability') in AVFORM_TAG:
+            key += '|availabilities-as-' + AVFORM_TAG[info['availability']]
         case = dict(part='pair', clause=clause, a=spec_a, b=spec_b, names=[name_a, name_b], group=grp, info=info)
         rec.violation(key, f'{clause}: {name_a} = {va[g].tolist()} but {name_b} = {vb[g].tolist()} at u={grp["u"]} '
                            f'avail={grp["avail"]} (alts {table.alts}, {info})', case,
@@ -174,6 +176,49 @@ ENTRIES = {
     'get_mev_for_cross_nested_mu': ('cnl', 'terms', True), 'getMevForCrossNestedMu': ('cnl', 'terms', True),
 }
 INIT_MODES = ['zero', 'one', 'comp']      # initial value of a moved degree of membership: 0 / 1 / 1 - alpha
+
+# ways of writing the availability conditions of ONE availability pattern without data columns (or with some): the statement
+# quantifies over all availabilities, and a dictionary of plain numbers / Numeric objects / expressions is as valid as
+# a dictionary of Variables.  The pattern is part of the expression: such models are evaluated on one-pattern tables.
+NUMBER_AVFORMS = ['const', 'cfloat', 'cbool']            # every condition a Python int / float / bool
+OTHER_AVFORMS = ['numeric', 'mixed', 'mixed2', 'expr']   # Numeric objects / numbers and Variables / products of expressions
+AVFORMS = NUMBER_AVFORMS + OTHER_AVFORMS
+AVFORM_TAG = {'const': 'python-numbers', 'cfloat': 'python-numbers', 'cbool': 'python-numbers', 'numeric': 'Numeric-objects',
+              'mixed': 'numbers-and-variables', 'mixed2': 'numbers-and-variables', 'expr': 'expressions'}
+
+
+def avforms_for(k, every):
+    """availability forms of one (structure, assignment, pattern): all of them, or one all-number form and one other form,
+    both rotating with k (over the patterns of a structure every form is reached)."""
+    return list(AVFORMS) if every else [NUMBER_AVFORMS[k % 3], OTHER_AVFORMS[k % 4]]
+
+
+def build_av6(alts, form, pat):
+    """B.build_av plus the forms of AVFORMS (reversed order as well).  `pat` is the availability pattern the numbers stand
+    for; Variables read the columns AV_<alt> of the table (which hold the same pattern)."""
+    if form in ('var', 'none'):
+        return B.build_av(alts, form, pat)
+    from biogeme.expressions import Variable, Numeric
+    av = {}
+    for k in reversed(range(len(alts))):
+        a = alts[k]
+        if form == 'const':
+            av[a] = int(pat[k])
+        elif form == 'cfloat':
+            av[a] = float(pat[k])
+        elif form == 'cbool':
+            av[a] = bool(pat[k])
+        elif form == 'numeric':
+            av[a] = Numeric(pat[k])
+        elif form in ('mixed', 'mixed2'):
+            number = (k % 2 == 0) == (form == 'mixed')
+            av[a] = (int(pat[k]) if k % 4 < 2 else float(pat[k])) if number else Variable(f'AV_{a}')
+        elif form == 'expr':
+            # availability of a scenario: the column times a condition on another column (true on every row: 7 != 0)
+            av[a] = Variable(f'AV_{a}') * (Variable('aa_unused') != Numeric(0))
+        else:
+            raise ValueError(form)
+    return av
 
 
 def family_entries(family):
@@ -270,7 +315,8 @@ def call_entry(entry, via, V, av, nests, choice, mu):
 
 def needs_entry_eval(spec):
     f = spec.get('forms', {})
-    return 'entry' in spec or 'init' in f or 'movedbeta' in (f.get('p'), f.get('alpha'), f.get('mu'))
+    return ('entry' in spec or 'init' in f or 'movedbeta' in (f.get('p'), f.get('alpha'), f.get('mu'))
+            or f.get('av', 'var') in AVFORMS)
 
 
 def eval_entry(spec, table):
@@ -283,9 +329,15 @@ def eval_entry(spec, table):
     f = dict(B.default_forms(), **spec.get('forms', {}))
     if f['u'] != 'var' or f['ch'] != 'var':
         raise ValueError('eval_entry: utilities and choice are data columns')
+    if f['av'] in AVFORMS and len(table.pats) != 1:
+        raise ValueError('eval_entry: availabilities written as numbers need a table with one availability pattern')
     db = table.database()
     V = B.build_util(alts, 'var', table.us[0])
-    av = B.build_av(alts, f['av'], table.pats[0])
+    av = build_av6(alts, f['av'], table.pats[0])
+    if spec['kind'] == 'logit':
+        from biogeme import models
+        expr = getattr(models, spec['model'])(V, av, Variable('CH'))
+        return np.asarray(expr.get_value_c(database=db, prepare_ids=True), dtype=float).reshape(-1, J)
     moved = {}
     nests = build_nests6(spec['kind'], alts, spec['nests'], spec['mus'], f, moved)
     mu = None
@@ -325,10 +377,12 @@ class Evaluator:
 
 
 # --------------------------------------------------------------------------- (a)-(d) for nested structures
-def check_nested_structure(alph, alts, alone, nests, mus, table, rec, tier, si=0, moved=None):
+def check_nested_structure(alph, alts, alone, nests, mus, table, rec, tier, si=0, moved=None, avf=None, light=False):
     """moved = None: the forms rotate with the structure (as before).  moved = initial-value mode ('zero'|'one'|'comp'):
     every nest parameter, scale and degree of membership is a free parameter evaluated away from its initial value, the
-    whole memberships are written as a full matrix with explicit zeros; same clauses, plus cnlmu(mu=1) == cnl."""
+    whole memberships are written as a full matrix with explicit zeros; same clauses, plus cnlmu(mu=1) == cnl.
+    avf = one of AVFORMS: the availability conditions of every model of the clauses (logit included) are written in that
+    form (one-pattern table).  light: without the scaled versions mu != 1 of clauses (b) and (d)."""
     ev = Evaluator(table, rec)
     info = dict(shape=shape(alone, nests), alone=list(alone), nests=[list(n) for n in nests], mus=list(mus))
     whole = [{a: 1.0 for a in n} for n in nests]
@@ -343,7 +397,10 @@ def check_nested_structure(alph, alts, alone, nests, mus, table, rec, tier, si=0
         xf = dict(init=moved)
         xm = dict(mu_form='movedbeta')
         info = dict(info, parameters='moved-from-initial-values:' + moved)
-    scales = alph['scale'][1:]
+    if avf is not None:
+        xf = dict(xf, av=avf)
+        info = dict(info, availability=avf)
+    scales = [] if light else alph['scale'][1:]
     for log in (False, True):
         pre = 'log' if log else ''
         N = nested_spec(alts, alone, nests, mus, pre + 'nested', p=pf, **xf)
@@ -351,6 +408,8 @@ def check_nested_structure(alph, alts, alone, nests, mus, table, rec, tier, si=0
         # (a) all parameters one -> logit
         if all(m == 1.0 for m in mus):
             L = dict(kind='logit', alts=list(alts), model=pre + 'logit')
+            if avf is not None:
+                L['forms'] = dict(av=avf)
             compare(rec, 'nested-with-unit-parameters-differs-from-logit', pre + 'nested', pre + 'logit', N, L, table, vN, ev(L), info)
         # (b) whole memberships -> nested
         if nests:
@@ -389,8 +448,8 @@ def check_nested_structure(alph, alts, alone, nests, mus, table, rec, tier, si=0
                             ev(Cmt), ev(Cm), dict(info, mu=mu), rel=1e-13)
 
 
-def check_cnl_structure(alph, alts, alone, nests, mus, table, rec, tier, si=0, moved=None):
-    """(c) and (d) for genuinely cross-nested structures (moved: see check_nested_structure)."""
+def check_cnl_structure(alph, alts, alone, nests, mus, table, rec, tier, si=0, moved=None, avf=None):
+    """(c) and (d) for genuinely cross-nested structures (moved, avf: see check_nested_structure)."""
     ev = Evaluator(table, rec)
     cross = any(0.0 < a < 1.0 for n in nests for a in n.values())
     info = dict(shape='alone=' + ('yes' if alone else 'no') + ',cross=' + ('yes' if cross else 'no'), alone=list(alone),
@@ -404,6 +463,9 @@ def check_cnl_structure(alph, alts, alone, nests, mus, table, rec, tier, si=0, m
         xf = dict(init=moved)
         xm = dict(mu_form='movedbeta')
         info = dict(info, parameters='moved-from-initial-values:' + moved)
+    if avf is not None:
+        xf = dict(xf, av=avf)
+        info = dict(info, availability=avf)
     for log in (False, True):
         pre = 'log' if log else ''
         C = cnl_spec(alts, alone, nests, mus, pre + 'cnl', p=pf, alpha=af, **xf)
@@ -520,7 +582,9 @@ def eval_generating(alts, alone, nests, mus, table, syntax, avform, uform='betav
     for k, a in enumerate(alts):
         beta = B._beta(f'bv_{a}', OFFSETS[k], 0)
         V[a] = beta + Variable(f'U_{a}') if uform == 'betavar' else beta
-    av = B.build_av(alts, avform, table.pats[0])
+    if avform in AVFORMS and avform != 'const' and len(table.pats) != 1:
+        raise ValueError('eval_generating: availabilities written as numbers need a table with one availability pattern')
+    av = build_av6(alts, avform, table.pats[0])
     nst = the_nests()
     with warnings.catch_warnings():
         warnings.simplefilter('ignore', DeprecationWarning)
@@ -596,7 +660,8 @@ def check_generating(alph, alts, alone, nests, mus, table, rec, syntax='obj', av
         avd = dict(zip(alts, pat))
         Gref, Giref = R.G_and_Gi(lambda y: R.G_nested(y, ref_nests, alone, 1.0), V, avd)
         grp = table.describe_group(g)
-        avail_tag = 'availability=' + ('None' if avform == 'none' else 'given')
+        avail_tag = 'availability=' + ('None' if avform == 'none' else 'given' if avform in ('var', 'const') else
+                                       'given-as-' + AVFORM_TAG[avform])
         alone_tag = 'alone=' + ('yes' if alone else 'no')
         case = dict(part='gen', alts=list(alts), alone=list(alone), nests=[list(n) for n in nests], mus=list(mus), group=grp,
                     syntax=syntax, avform=avform, uform=uform, pform=pform, **xcase)
@@ -686,6 +751,24 @@ def tasks(tier, seed):
         n = len(R.cnl_structures(alph['labels'][:J], M, alph['splits'][:ns]))
         for ch in B._chunks(range(n), per * 2):
             t.append(dict(part='moved_cnl', J=J, M=M, ns=ns, pa=pa, structs=ch, seed=seed, tier=tier))
+    # availability conditions written without data columns: Python numbers, Numeric objects, numbers and Variables, expressions
+    for J in range(2, Jmax + 1):
+        structs = R.nested_structures(alph['labels'][:J])
+        npat = 2 ** J - 1
+        for ch in B._chunks(range(len(structs)), ({2: 2, 3: 2, 4: 2} if quick else {2: 1, 3: 1, 4: 2})[J]):
+            t.append(dict(part='avforms', J=J, structs=ch, seed=seed, tier=tier))
+        for ch in B._chunks(range(len(structs)), {2: 5, 3: 4, 4: 4}[J]):
+            t.append(dict(part='avforms_gen', J=J, structs=ch, seed=seed, tier=tier))
+        if J <= (2 if quick else 3):
+            for si in range(len(structs)):
+                for pch in B._chunks(range(npat), 3 if quick else (1 if J == 2 else 4)):
+                    t.append(dict(part='avforms_entry', J=J, structs=[si], pats=pch, seed=seed, tier=tier))
+    for J, M, ns, pa, per, _sc in B.cnl_config(tier):
+        if (J, M) not in ([(2, 2)] if quick else [(2, 2), (2, 3), (3, 2)]):
+            continue
+        n = len(R.cnl_structures(alph['labels'][:J], M, alph['splits'][:ns]))
+        for ch in B._chunks(range(n), 12 if J == 2 else 6):
+            t.append(dict(part='avforms_cnl', J=J, M=M, ns=ns, pa=pa, structs=ch, seed=seed, tier=tier))
     return t
 
 
@@ -818,6 +901,72 @@ def run_task(task):
                     check_generating(alph, alts, alone, nests, mus, tnone, rec, 'tuple' if syntax == 'obj' else 'obj', 'none',
                                      'betavar', pform, entries, init)
         rec.sample(dict(part='gen_entries', alts=alts, first=structs[task['structs'][0]], names=GEN_ENTRIES[1:]))
+    elif task['part'] == 'avforms':
+        # clauses (a)-(d) with the availability conditions of BOTH models of every pair written in one of AVFORMS
+        structs = R.nested_structures(alts)
+        base = _table(alph, J, tier, small=True)
+        every = J == 2 or (tier != 'quick' and J <= 3)
+        for si in task['structs']:
+            alone, nests = structs[si]
+            for mi, mus in enumerate(assignments(alph, len(nests), si, full=False)):
+                for pi, pat in enumerate(base.pats):
+                    t1 = B.Table(alts, base.us, [pat])
+                    k = si + mi + pi
+                    rotating = avforms_for(k, False)
+                    for avf in avforms_for(k, every):
+                        heavy = tier != 'quick' and J <= 3 and avf in rotating     # with the scaled versions mu != 1
+                        check_nested_structure(alph, alts, alone, nests, mus, t1, rec, tier, si + mi, avf=avf, light=not heavy)
+        rec.sample(dict(part='avforms', alts=alts, first=structs[task['structs'][0]], availability_forms=AVFORMS))
+    elif task['part'] == 'avforms_entry':
+        structs = R.nested_structures(alts)
+        base = _table(alph, J, tier, small=True)
+        for si in task['structs']:
+            alone, nests = structs[si]
+            asg = assignments(alph, len(nests), si, full=False)
+            for pi in task['pats']:
+                t1 = B.Table(alts, base.us, [base.pats[pi]])
+                k = si + pi
+                if tier != 'quick' and J == 2:
+                    combos = [(mus, avf) for mus in asg for avf in AVFORMS]
+                else:
+                    # one form per (structure, pattern): the all-number forms and the others alternate with k; the
+                    # all-ones assignment (clause (a)) and the other one alternate with the patterns of a structure
+                    combos = [(asg[(k // 2) % len(asg)], avforms_for(k // 2, False)[k % 2])]
+                for ci, (mus, avf) in enumerate(combos):
+                    check_entry_points(alph, alts, alone, nests, mus, t1, rec, avf, k + ci)
+        rec.sample(dict(part='avforms_entry', alts=alts, first=structs[task['structs'][0]], availability_forms=AVFORMS))
+    elif task['part'] == 'avforms_cnl':
+        structs = R.cnl_structures(alts, task['M'], alph['splits'][:task['ns']])
+        base = _table(alph, J, tier, small=True)
+        for si in task['structs']:
+            alone, nests = structs[si]
+            if not any(0.0 < a < 1.0 for n in nests for a in n.values()):
+                rec.count('cnl_structure_without_cross_membership_covered_by_nested_part')
+                continue
+            mus_list = B._cnl_mus(alph, task['M'], 'reduced')
+            mus = list(mus_list[si % len(mus_list)])
+            for pi, pat in enumerate(base.pats):
+                t1 = B.Table(alts, base.us, [pat])
+                for avf in avforms_for(si + pi, tier != 'quick' and (J, task['M']) == (2, 2)):
+                    check_cnl_structure(alph, alts, alone, nests, mus, t1, rec, tier, si, avf=avf)
+        rec.sample(dict(part='avforms_cnl', alts=alts, M=task['M'], first=structs[task['structs'][0]]))
+    elif task['part'] == 'avforms_gen':
+        # clause (e) with the availability conditions handed to the generating function and to the terms in one of AVFORMS
+        structs = R.nested_structures(alts)
+        base = _table(alph, J, tier, small=True)
+        for si in task['structs']:
+            alone, nests = structs[si]
+            for mi, mus in enumerate(assignments(alph, len(nests), si, full=False)):
+                for pi, pat in enumerate(base.pats):
+                    t1 = B.Table(alts, base.us, [pat])
+                    k = si + mi + pi
+                    for fi, avf in enumerate(avforms_for(k, tier != 'quick' and J <= 3)):
+                        kk = k + fi
+                        entries = None if kk % 2 == 0 else GEN_ENTRIES[1 + (kk // 2) % (len(GEN_ENTRIES) - 1)]
+                        check_generating(alph, alts, alone, nests, mus, t1, rec, 'obj' if kk % 4 < 2 else 'tuple', avf, 'betavar',
+                                         (B.PFORMS + ['movedbeta'])[kk % 5] if entries else B.PFORMS[kk % 4], entries,
+                                         INIT_MODES[kk % 3])
+        rec.sample(dict(part='avforms_gen', alts=alts, first=structs[task['structs'][0]], availability_forms=AVFORMS))
     else:
         raise ValueError(task['part'])
     return rec.result()
